@@ -107,3 +107,15 @@ contract(TR + "query_ast_visitor.visit_Compare", props=["C13", "C09"],
              ("boolean@C13", "plain_value(rep_of(node), '(' + expr_of(final_left) + cmp_text(field(node, 'ops')[0]) + expr_of(final_right) + ')', 'bool')"),
              ("known_operator@C09", "known_cmp(field(node, 'ops')[0])"),
          ])
+
+# ---- `**`: a real power through std::pow, anything else that is not + - * / % is refused ------------------------------------------------------
+contract(TR + "query_ast_visitor.visit_special_BinOp", props=["C13", "C09", "C12"],
+         params=dict(self=QV, node=BINOP_NODE), local_sorts=dict(left=VAL, right=VAL),
+         requires=CVC_REQUIRES + [("operands", "field(node, 'left') != None and field(node, 'right') != None and field(node, 'op') != None")],
+         modifies=CVC_MODIFIES, may_raise=["Exception"], strict=False,
+         raises={"RuntimeError": "not op_is(node, 'Pow')"},
+         ensures=CVC_ENSURES + [
+             ("real_power@C13", "is_new(rep_of(node)) and expr_of(rep_of(node)) == 'std::pow(' + expr_of(final_left) + ', ' + expr_of(final_right) + ')' and "
+                                "kind_of(rep_of(node)) == 'double' and field(type_of(rep_of(node)), '_p_depth') == 0"),
+             ("header_requested@C12,C13", "contains(field(gc_of(self), '_include_files'), 'cmath')"),
+         ])
